@@ -154,6 +154,27 @@ def harness(env, case):
                         rhs = rhs - (st.norms2[k - 1] / st.norms2[k - 2]) * U[k - 2][i]
                     conds.append(symx.to_z3(U[k][i]) == symx.to_z3(rhs))
             env.prove(z3.And(conds), "poly: column k is a degree-k polynomial of x (three-term recurrence with the fitted parameters): same span as x..x^d")
+            # mutual orthogonality of the columns
+            for j in range(M.shape[1]):
+                for k in range(j + 1, M.shape[1]):
+                    env.prove(zsum([symx.to_z3(M[i, j]) * symx.to_z3(M[i, k]) for i in range(n)]) == 0, "poly: columns are mutually orthogonal")
+            # later data: the same recurrence with the TRAINING parameters
+            alpha0, norms = dict(st.alpha), dict(st.norms2)
+            x2 = env.column("xnew", 2)
+            nd = env.frame({"y": env.column("ynew", 2), "x": x2})
+            with env.running():
+                new = np.asarray(dm.common.evaluate_new_data(nd).design_matrix)[:, 1:]
+            V = {0: [symx.Sym.lift(1) * 1 for _ in range(2)]}
+            conds2 = []
+            for k in range(1, d + 1):
+                V[k] = [new[i, k - 1] * r[k] for i in range(2)]
+                for i in range(2):
+                    rhs = (x2[i] - alpha0[k - 1]) * V[k - 1][i]
+                    if k >= 2:
+                        rhs = rhs - (norms[k - 1] / norms[k - 2]) * V[k - 2][i]
+                    conds2.append(symx.to_z3(V[k][i]) == symx.to_z3(rhs))
+            env.prove(z3.And(conds2), "poly: later data go through the same recurrence with the training parameters")
+            env.prove_equal([st.alpha[k] for k in sorted(alpha0)], [alpha0[k] for k in sorted(alpha0)], "poly: fitted recurrence coefficients unchanged by evaluate_new_data")
         return
     if kind == "bs":
         dfp, degree, intercept, nk = arg
